@@ -7,7 +7,7 @@ ID = 'C13'
 TARGETS = ['MindsVerif.Props.C13']
 THEOREMS = ['MindsVerif.Props.C13.' + n for n in (
     'C13_lifting', 'C13_once', 'C13_unchanged', 'C13_of_schemaOK', 'C13_partial', 'C13_trace', 'C13_no_none_call', 'phi13', 'phi13_rest',
-    'phi13_uniform', 'phi13_clean', 'phi13_samples', 'C13_samples_textual', 'C13_regress_order', 'C13_regress_coverage',
+    'phi13_uniform', 'phi13_clean', 'phi13_truthy', 'C13_replace', 'C13_falsy_answer', 'phi13_samples', 'C13_samples_textual', 'C13_regress_order', 'C13_regress_coverage',
     'C13_regress_window', 'C13_regress_cte', 'walk_congr', 'C13_review_once_reordered', 'C13_review_replace_reordered',
     'phi13_reordered')]
 ASSUME = [
@@ -17,8 +17,10 @@ ASSUME = [
     'specification data NOT derived from the code: which child slots hold table references / targets / expressions / nested '
     'queries and which hold names (aliases, object names, column-name lists, option dictionaries) or containers is the '
     'hand-written table tools/harness/walkspec.py (SPEC, CORE, default rule); the slot kinds of Gen/Schema.lean are copied from it',
-    'textual order = order of first printed position in to_string(); replacements are nodes (list results spliced into '
-    'Select.targets and falsy results are outside the model)',
+    'textual order = order of first printed position in to_string(); answers of the visitor are node objects (list results '
+    'spliced into Select.targets are outside the model); Python truthiness of an answer is modelled (`truthyIn`: an instance '
+    'of a class with __len__/__bool__ is falsy when it has no children) and pinned: by introspection no AST class defines '
+    '__len__/__bool__ (phi13_truthy, probe:no-falsy-node-class); which positions use `… or child` is probed with a falsy answer',
     'rose trees carry no aliasing: parser trees that share a sub-object (e.g. Star of `t.*` after copy) are skipped by the '
     'correspondence and by the oracle (counted in the distribution)',
 ]
@@ -68,6 +70,8 @@ def run(chk):
     schema = walkrun.load_schema()
     non = {cn: c['nonuniform'] for cn, c in schema['classes'].items() if c['nonuniform']}
     chk.oblige('probe:uniform', 'translator', not non, json.dumps(non)[:800])
+    # pinned by introspection: no AST class defines __len__ / __bool__ (else `… or child` drops falsy answers)
+    chk.oblige('probe:no-falsy-node-class', 'translator', not schema.get('falsy_capable'), json.dumps(schema.get('falsy_capable')))
     lines, metas = [], []
     dist = {}
     n_trees = 0
@@ -111,7 +115,7 @@ def run(chk):
         modes = [('log', None)]
         if n > 1:
             for x in sorted(set(rng.randrange(1, n) for _ in range(2 if quick else 4))):
-                modes.append(('rep', x))
+                modes.append((rng.choice(['rep', 'rep', 'rept', 'repf']), x))
         for m, a in modes:
             r, num = c.fresh()
             try:
